@@ -135,7 +135,7 @@ class RoundTrip(Obligation):
                                      completeness=[none(),some(b.struct('Completeness',arguments=some(Bool(z3.Bool('c_arg'))),environment=none(),materials=none()))][run.pick(2,'compl')],reproducible=none()))
             def mats(): return [none(),some(VecO([b.struct('Material',uri=some(uri('git+x')),digest=some(b.hashmap([(mk_string('sha1'),mk_string('ab'))])))])),some(VecO([])),
                                  # two materials whose uris are NOT in ascending order: the list is data, its order survives the trip (recipe.definedInMaterial indexes into it)
-                                 some(VecO([b.struct('Material',uri=some(uri('z+x')),digest=some(b.hashmap([(mk_string('sha1'),mk_string('ab'))]))),b.struct('Material',uri=some(uri('a+x')),digest=none())]))][run.pick(4,'mats')]
+                                 some(VecO([b.struct('Material',uri=some(uri('z+x')),digest=some(b.hashmap([(mk_string('sha1'),mk_string('ab'))]))),b.struct('Material',uri=some(uri('a+x')),digest=none())]))][run.pick(4 if w=='predicate' else 3,'mats')]      # (the two-material list only for bare predicates: the statement wrapper adds nothing to it and multiplies the paths)
             def slsa1(): return b.struct('SLSAProvenanceV01',builder=b.struct('Builder',id=uri(self.S(run,'bid','b'))),
                                          recipe=[none(),some(b.struct('Recipe',typ=uri('t'),defined_in_material=some(Int(64,False,z3.BitVec('dim',64))),entry_point=none(),arguments=none(),environment=none()))][run.pick(2,'recipe')],metadata=meta(),materials=mats())
             def slsa2(): return b.struct('SLSAProvenanceV02',builder=b.struct('Builder',id=uri('b')),build_type=uri(self.S(run,'bt','t')),
